@@ -262,7 +262,7 @@ def cli(x, p):
         x.check('conflicting or unusable arguments fail the command',
                 Or(exc is not None, rc != 0))
         x.check('and leave OUT untouched',
-                And(len(fs.opened_for_write) == 0,
+                And(clikit.changed(fs) == [],
                     fs.files.get('/w/out.p8') == prev,
                     fs.files.get(out_name) == files.get(out_name)))
         return
@@ -271,7 +271,7 @@ def cli(x, p):
             info=repr((rc, exc))[:160])
     if exc is not None or rc != 0:
         return
-    x.check('only OUT is written', fs.opened_for_write == ['/w/out.p8'])
+    x.check('only OUT is written', clikit.only_changed(fs, '/w/out.p8'))
     for n in ('/w/a.p8', '/w/b.p8', '/w/m.lua'):
         x.check('sources are not modified', fs.files[n] == files[n])
 
